@@ -1,3 +1,17 @@
+import importlib.util, os
+_sp = importlib.util.spec_from_file_location("c05suite", os.path.join(os.path.dirname(os.path.abspath(__file__)), "..", "C05", "suite.py"))
+_c05 = importlib.util.module_from_spec(_sp); _sp.loader.exec_module(_c05)
+
+
+def _from_c05(name, newname):
+    o = dict([x for x in _c05.OBLIGATIONS if x["name"] == name][0])
+    o["name"] = newname
+    o["files"] = [f if not isinstance(f, str) or f.startswith("@") else "@suites/C05/" + f for f in o["files"]]
+    if o.get("replay"):
+        r = dict(o["replay"]); r["prog"] = "@suites/C05/" + r["prog"]; o["replay"] = r
+    return o
+
+
 PROPERTY = "C18"
 LEVEL = "proof"
 EXPLANATION = ("Contract on the unmodified src/reciprocal.c (merged via -include): defined behaviour, empty frame and "
@@ -40,4 +54,8 @@ OBLIGATIONS = [
         "native": {"prog": "native_reciprocal.c", "sources": ["src/reciprocal.c", "src/jit_compiler_x86_static.S"], "args": ["full"]},
         "timeout": 3600,
     },
+    # no-op rule: IMUL_RCP with zero / power-of-two immediate decodes to NOP and leaves the last-writer table alone;
+    # otherwise it multiplies by randomx_reciprocal(imm32) whose precondition is proved at the call site (interpreter side)
+    _from_c05("decode_contract", "imul_rcp_decode_noop_rule"),
+    _from_c05("exec_IMUL_RCP", "imul_rcp_execute_noop_rule"),
 ]
